@@ -19,13 +19,13 @@ def shape_patterns(tier):
 
 
 def bounds(tier, lmax=5):
-    return {"l_pairs": (lmax + 1) ** 2, "type_pairs": 4, "geometries": 7 if tier == "quick" else len(al.GEOMS), "coefficient_scale_classes": 3, "atom_index_patterns": 3,
+    return {"l_pairs": (lmax + 1) ** 2, "type_pairs": 4, "geometries": 8 if tier == "quick" else len(al.GEOMS), "coefficient_scale_classes": 3, "atom_index_patterns": 3,
             "shape_patterns": len(shape_patterns(tier)), "K": "1..2" if tier == "quick" else "1..4",
             "M": "1..2" if tier == "quick" else "1..3", "whole_bases": "1,3,4 shells, all type patterns"}
 
 
 def configs(tier, lmax=5, singles=True, bases=True, shapes=None, geoms=None):
-    geoms = geoms or (al.GEOMS[:5] + ["closeT", "nearfar"] if tier == "quick" else al.GEOMS)
+    geoms = geoms or (al.GEOMS[:5] + ["closeT", "nearfar", "sumzero"] if tier == "quick" else al.GEOMS)
     shapes = shapes or shape_patterns(tier)
     out = []
     for la in range(lmax + 1):
@@ -75,10 +75,10 @@ def close_configs(lmax):
     out = []
     for la in range(lmax + 1):
         for lb in range(lmax + 1):
-            for gi, g in enumerate(("closeT", "nearfar")):
+            for gi, g in enumerate(("closeT", "nearfar", "sumzero")):
                 ta, tb = al.type_patterns(2)[(la + 3 * lb + gi) % 4]
                 out.append({"kind": "pair", "la": la, "lb": lb, "ta": ta, "tb": tb, "geom": g,
-                            "shape": [1, 1, 2, 2, 1, 0], "ic": None})
+                            "shape": [1, 1, 2, 2, 1, 0] if g != "sumzero" else [2, 1, 1, 1, 2, 1], "ic": None})
     return out
 
 
@@ -90,6 +90,8 @@ def build(cfg, originA=False):
     if cfg["kind"] == "pair":
         Ka, Ma, pa, Kb, Mb, pb = cfg["shape"]
         A = (0.0, 0.0, 0.0) if (originA or cfg.get("originA")) else al.generic_center("A")
+        if cfg["geom"] == "sumzero":
+            A = al.SUMZERO_A
         # every third configuration uses table-style (normalised, rounded) coefficients for shell a, every fourth for b
         ta_ = (cfg["la"] + 2 * cfg["lb"] + Ka + pb) % 3 == 0
         tb_ = (cfg["la"] + cfg["lb"] + Kb + pa) % 4 == 0
